@@ -19,6 +19,7 @@ import (
 	"fmt"
 	"math/rand"
 	"os"
+	"runtime"
 	"strings"
 	"sync"
 	"testing"
@@ -211,7 +212,8 @@ type step struct {
 }
 
 type program struct {
-	Loc    int      `json:"loc"`  // UTC offset (s) of the Cron's location
+	Chain  string   `json:"chain"` // WithChain option: none | recover | skip | delay | recover+delay
+	Loc    int      `json:"loc"`   // UTC offset (s) of the Cron's location
 	Mode   string   `json:"mode"` // seq | race
 	Steps  []step   `json:"steps"`
 	Prefix []string `json:"prefix"`
@@ -263,6 +265,48 @@ type result struct {
 	raceWake, raceOp int
 }
 
+// invocations of wrapped jobs, by goroutine (the job function runs on the goroutine of its invocation)
+type invocation struct{ entered bool }
+type invTable struct {
+	mu sync.Mutex
+	m  map[string]*invocation
+}
+
+func goid() string {
+	var buf [64]byte
+	n := runtime.Stack(buf[:], false)
+	f := strings.Fields(string(buf[:n]))
+	if len(f) > 1 {
+		return f[1]
+	}
+	return ""
+}
+func (t *invTable) begin() *invocation {
+	inv := &invocation{}
+	t.mu.Lock()
+	t.m[goid()] = inv
+	t.mu.Unlock()
+	return inv
+}
+func (t *invTable) end() {
+	t.mu.Lock()
+	delete(t.m, goid())
+	t.mu.Unlock()
+}
+func (t *invTable) entered() {
+	t.mu.Lock()
+	if inv := t.m[goid()]; inv != nil {
+		inv.entered = true
+	}
+	t.mu.Unlock()
+}
+
+// wrapLogger is handed to the chain wrappers ("skip", "delay", recovered panics): replay text only.
+type wrapLogger struct{ hook func(string) }
+
+func (l *wrapLogger) Info(msg string, kv ...interface{})             { l.hook(fmt.Sprint("chainlog:", msg, kv)) }
+func (l *wrapLogger) Error(err error, msg string, kv ...interface{}) { l.hook(fmt.Sprint("chainlogerr:", msg, err)) }
+
 func isCronGate(p string) bool { return strings.HasPrefix(p, "cron.") }
 
 // runProgram executes one history under one seeded schedule.
@@ -270,9 +314,12 @@ func runProgram(b, hb *tv.Batch, prog program, seed int64) result {
 	rng := rand.New(rand.NewSource(seed))
 	clk := &hclock{FakeClock: clocktesting.NewFakeClock(base)}
 	rec := &recorder{b: b, hb: hb}
-	tr := b.Start(tv.M{"loc": prog.Loc, "prog": prog, "seed": seed})
+	if prog.Chain == "" {
+		prog.Chain = "none"
+	}
+	tr := b.Start(tv.M{"loc": prog.Loc, "chain": prog.Chain, "prog": prog, "seed": seed})
 	if hb != nil {
-		hb.Start(tv.M{"loc": prog.Loc, "seed": seed})
+		hb.Start(tv.M{"loc": prog.Loc, "chain": prog.Chain, "seed": seed})
 	}
 	ctl := sched.New("cron.*", "job.block")
 	var hmu sync.Mutex
@@ -312,7 +359,34 @@ func runProgram(b, hb *tv.Batch, prog program, seed int64) result {
 
 	loc := time.FixedZone(fmt.Sprintf("off%d", prog.Loc), prog.Loc)
 	offTicks := int64(prog.Loc / tickSec)
-	c := cron.New(cron.WithClock(clk), cron.WithLogger(&hlogger{rec: rec, hook: hook}), cron.WithLocation(loc))
+	// The chain under test sits below a harness mark wrapper (outermost) that attributes every invocation of a
+	// wrapped job to its entry and reports the invocations that return without entering the job function.
+	invs := &invTable{m: map[string]*invocation{}}
+	curSched := 0 // id of the entry being scheduled (Then applies the wrappers inside the Schedule call)
+	mark := func(j cron.Job) cron.Job {
+		id := curSched
+		return cron.FuncJob(func() {
+			inv := invs.begin()
+			j.Run()
+			invs.end()
+			if !inv.entered {
+				rec.ev("jobskip", tv.M{"id": id})
+			}
+		})
+	}
+	wlog := &wrapLogger{hook: hook}
+	opts := []cron.Option{cron.WithClock(clk), cron.WithLogger(&hlogger{rec: rec, hook: hook}), cron.WithLocation(loc)}
+	switch prog.Chain {
+	case "recover":
+		opts = append(opts, cron.WithChain(mark, cron.Recover(wlog)))
+	case "skip":
+		opts = append(opts, cron.WithChain(mark, cron.SkipIfStillRunning(wlog)))
+	case "delay":
+		opts = append(opts, cron.WithChain(mark, cron.DelayIfStillRunning(wlog)))
+	case "recover+delay":
+		opts = append(opts, cron.WithChain(mark, cron.Recover(wlog), cron.DelayIfStillRunning(wlog)))
+	}
+	c := cron.New(opts...)
 
 	nowTicks := func() int { return tickOf(clk.Now()) }
 	var cur *sched.Task
@@ -339,6 +413,7 @@ func runProgram(b, hb *tv.Batch, prog program, seed int64) result {
 
 	mkJob := func(id int, block bool) func() {
 		return func() {
+			invs.entered()
 			rec.ev("jobstart", tv.M{"id": id, "now": nowTicks()})
 			if block {
 				ctl.Point("job.block")
@@ -371,6 +446,7 @@ func runProgram(b, hb *tv.Batch, prog program, seed int64) result {
 			case "sched":
 				nextID++
 				id := nextID
+				curSched = id
 				lph := 0
 				if s.P > 0 {
 					lph = int(floorMod(int64(s.Ph)+offTicks, int64(s.P))) // base is a multiple of 12 ticks
@@ -447,9 +523,8 @@ func runProgram(b, hb *tv.Batch, prog program, seed int64) result {
 		if clk.pending() && !cronParked() && nudges >= 2 {
 			nudgeStuck = true
 		}
-		if pending() {
-			return
-		}
+		// (a quiescent point is reported even when an overdue, unfired timer exists: the monitor decides
+		// whether the scheduler was entitled to leave something for a later wake-up)
 		for _, p := range parked {
 			if isCronGate(p.Point) {
 				return
@@ -591,13 +666,87 @@ var schedFamilies = [][]schedSpec{
 	{{2, 1}, {3, 0}},         // co-prime
 	{{3, 2}, {2, 0}, {0, 0}}, // co-prime + never firing
 	{{0, 0}, {3, 1}},         // never firing first
+	{{4, 2}, {4, 0}, {3, 0}}, // three entries: the third's activations fall between the others'
+	{{3, 1}, {4, 0}, {2, 0}},
+}
+
+var chains = []string{"none", "none", "none", "recover", "skip", "delay", "recover+delay"}
+
+func nextAct(p, ph, t int) int {
+	if p == 0 {
+		return 0
+	}
+	a := t + 1
+	for a%p != ph {
+		a++
+	}
+	return a
+}
+
+// betweenHistories: two entries A, B are running; after d0 ticks an entry C is added whose next activation c lies
+// between theirs (a <= c < b, or B never fires); then the clock jumps to J with c <= J < b: A and C must both be
+// started at that one wake-up.  Every k-th of the enumerated cases is returned.
+func betweenHistories(mode string, every int) []program {
+	cand := []schedSpec{{2, 0}, {2, 1}, {3, 0}, {3, 1}, {3, 2}, {4, 0}, {4, 1}, {4, 2}, {4, 3}, {0, 0}}
+	var ps []program
+	n := 0
+	for _, A := range cand {
+		for _, B := range cand {
+			for _, C := range cand {
+				for d0 := 0; d0 <= 2; d0++ {
+					a, bb, c := nextAct(A.p, A.ph, d0), nextAct(B.p, B.ph, d0), nextAct(C.p, C.ph, d0)
+					if A.p == 0 || C.p == 0 || A == B || A == C || B == C || c < a || (bb != 0 && c >= bb) {
+						continue
+					}
+					for _, J := range []int{c, bb - 1} {
+						if J < c || J-d0 > 5 || (bb == 0 && J != c) {
+							continue
+						}
+						n++
+						if n%every != 0 {
+							continue
+						}
+						p := program{Loc: locs[n%len(locs)], Mode: mode, Chain: "none", Prefix: []string{}}
+						p.Steps = append(p.Steps, step{Op: "sched", P: A.p, Ph: A.ph}, step{Op: "sched", P: B.p, Ph: B.ph}, step{Op: "start"})
+						if d0 > 0 {
+							p.Steps = append(p.Steps, step{Op: "adv", D: d0})
+						}
+						p.Steps = append(p.Steps, step{Op: "sched", P: C.p, Ph: C.ph}, step{Op: "adv", D: J - d0}, step{Op: "entries"},
+							step{Op: "adv", D: 1}, step{Op: "adv", D: 2}, step{Op: "entries"})
+						ps = append(ps, p)
+					}
+				}
+			}
+		}
+	}
+	return ps
+}
+
+// chainHistories: entry 1 blocks in its job; entry 2's instants are reached meanwhile (it must be started at each of
+// them whatever entry 1 does); entry 1's own next instants are reached while it is still running (delay / skip
+// per entry); then the blocked jobs are let go.
+func chainHistories(mode string) []program {
+	var ps []program
+	for _, ch := range []string{"none", "recover", "skip", "delay", "recover+delay"} {
+		for _, fam := range [][]schedSpec{{{2, 0}, {3, 1}}, {{3, 0}, {2, 1}}, {{2, 0}, {2, 0}}} {
+			p := program{Loc: 19800, Mode: mode, Chain: ch, Prefix: []string{}}
+			p.Steps = append(p.Steps, step{Op: "sched", P: fam[0].p, Ph: fam[0].ph, Block: true}, step{Op: "sched", P: fam[1].p, Ph: fam[1].ph}, step{Op: "start"})
+			for _, d := range []int{1, 1, 1, 1, 2} {
+				p.Steps = append(p.Steps, step{Op: "adv", D: d})
+			}
+			p.Steps = append(p.Steps, step{Op: "entries"}, step{Op: "unblock"}, step{Op: "adv", D: 1}, step{Op: "unblock"}, step{Op: "unblock"},
+				step{Op: "adv", D: 1}, step{Op: "entries"}, step{Op: "stop"})
+			ps = append(ps, p)
+		}
+	}
+	return ps
 }
 
 var locs = []int{19800, 19800, 19800, -9000, 0}
 
 func genProgram(rng *rand.Rand, mode string) program {
 	fam := schedFamilies[rng.Intn(len(schedFamilies))]
-	p := program{Loc: locs[rng.Intn(len(locs))], Mode: mode, Prefix: []string{}}
+	p := program{Loc: locs[rng.Intn(len(locs))], Mode: mode, Chain: chains[rng.Intn(len(chains))], Prefix: []string{}}
 	added, live := 0, []int{}
 	running := false
 	n := 5 + rng.Intn(8)
@@ -721,25 +870,55 @@ func TestCheck(t *testing.T) {
 		}
 		extraDistinct, extraGenerated = mc2.Distinct, mc2.Generated
 	}
-	live := tlc.Run(tlc.Opts{Dir: "CronSched", Module: "MCCronSched", Config: "MC_live.cfg", Workers: 16, Timeout: 10 * time.Minute, HeapMB: 12000, Args: []string{"-noGenerateSpecTE"}})
-	fmt.Printf("MC CronSched liveness: ok=%v generated=%d distinct=%d wall=%s %s\n", live.OK, live.Generated, live.Distinct, live.Wall.Round(time.Millisecond), live.What)
-	if !live.OK {
-		e.Inconclusive("liveness model check of CronSched.tla did not pass: " + live.What + "\n" + live.Tail(2000))
+	// the small configurations run side by side: liveness, three-entry "between" insertion, the chain wrappers
+	// (per-entry delay / skip), and the four defect variants that must be rejected (the model check is not vacuous)
+	type smallMC struct {
+		cfg, what string
+		defect    bool
+		res       tlc.Result
 	}
-	def := tlc.Run(tlc.Opts{Dir: "CronSched", Module: "MCCronSched", Config: "MC_defect.cfg", Workers: 8, Timeout: 5 * time.Minute, HeapMB: 8000, Args: []string{"-noGenerateSpecTE"}})
-	fmt.Printf("MC CronSched defect variant (stale now after remove): violation=%v %s wall=%s\n", def.Violation, def.What, def.Wall.Round(time.Millisecond))
-	if !def.Violation {
-		e.Inconclusive("the defect variant of CronSched.tla was not rejected: the model check is vacuous")
+	smalls := []*smallMC{
+		{cfg: "MC_live.cfg", what: "liveness (calls return, due jobs get started)"},
+		{cfg: "MC_between.cfg", what: "entry added between two armed ones"},
+		{cfg: "MC_chain_delay.cfg", what: "WithChain(DelayIfStillRunning), blocking job"},
+		{cfg: "MC_chain_skip.cfg", what: "WithChain(SkipIfStillRunning), blocking job"},
+		{cfg: "MC_defect.cfg", what: "defect: stale now after remove", defect: true},
+		{cfg: "MC_defect_lateadd.cfg", what: "defect: jobWaiter.Add inside the job goroutine", defect: true},
+		{cfg: "MC_defect_unsortedadd.cfg", what: "defect: add arm keeps the timer and skips the re-sort", defect: true},
+		{cfg: "MC_defect_sharedmu.cfg", what: "defect: DelayIfStillRunning mutex shared by all entries", defect: true},
 	}
-	def2 := tlc.Run(tlc.Opts{Dir: "CronSched", Module: "MCCronSched", Config: "MC_defect_lateadd.cfg", Workers: 8, Timeout: 5 * time.Minute, HeapMB: 8000, Args: []string{"-noGenerateSpecTE"}})
-	fmt.Printf("MC CronSched defect variant (jobWaiter.Add inside the job goroutine): violation=%v %s wall=%s\n", def2.Violation, def2.What, def2.Wall.Round(time.Millisecond))
-	if !def2.Violation {
-		e.Inconclusive("the lateadd defect variant of CronSched.tla was not rejected: the model check is vacuous")
+	var mcwg sync.WaitGroup
+	for _, m := range smalls {
+		mcwg.Add(1)
+		go func(m *smallMC) {
+			defer mcwg.Done()
+			m.res = tlc.Run(tlc.Opts{Dir: "CronSched", Module: "MCCronSched", Config: m.cfg, Workers: 2, Timeout: 10 * time.Minute, HeapMB: 3000, Args: []string{"-noGenerateSpecTE"}})
+		}(m)
 	}
-	e.Set("states", mc.Distinct+live.Distinct+extraDistinct)
-	e.Set("transitions", mc.Generated+live.Generated+extraGenerated)
+	mcwg.Wait()
+	defectsRejected := true
+	var smallDistinct, smallGenerated int64
+	for _, m := range smalls {
+		r := m.res
+		if m.defect {
+			fmt.Printf("MC CronSched %s (%s): violation=%v %s wall=%s\n", m.cfg, m.what, r.Violation, r.What, r.Wall.Round(time.Millisecond))
+			if !r.Violation {
+				defectsRejected = false
+				e.Inconclusive("the defect variant " + m.cfg + " of CronSched.tla was not rejected: the model check is vacuous")
+			}
+			continue
+		}
+		fmt.Printf("MC CronSched %s (%s): ok=%v generated=%d distinct=%d wall=%s %s\n", m.cfg, m.what, r.OK, r.Generated, r.Distinct, r.Wall.Round(time.Millisecond), r.What)
+		if !r.OK {
+			e.Inconclusive("model check " + m.cfg + " of CronSched.tla did not pass: " + r.What + "\n" + r.Tail(2000))
+		}
+		smallDistinct += r.Distinct
+		smallGenerated += r.Generated
+	}
+	e.Set("states", mc.Distinct+smallDistinct+extraDistinct)
+	e.Set("transitions", mc.Generated+smallGenerated+extraGenerated)
 	e.Set("checker_cmd", mc.Cmd)
-	e.Set("mc_defect_rejected", def.Violation && def2.Violation)
+	e.Set("mc_defect_rejected", defectsRejected)
 
 	b := &tv.Batch{}
 	hb := &tv.Batch{}
@@ -766,6 +945,20 @@ func TestCheck(t *testing.T) {
 	}
 	for _, p := range systematic() {
 		run(p, rng.Int63())
+	}
+	for _, p := range betweenHistories("seq", ev.Pick(29, 3)) {
+		run(p, rng.Int63())
+	}
+	for _, p := range betweenHistories("race", ev.Pick(97, 11)) {
+		run(p, rng.Int63())
+	}
+	for _, p := range chainHistories("seq") {
+		run(p, rng.Int63())
+	}
+	for i := 0; i < ev.Pick(1, 10); i++ {
+		for _, p := range chainHistories("race") {
+			run(p, rng.Int63())
+		}
 	}
 	nStaged := ev.Pick(12, 100)
 	for _, p := range staged() {
@@ -801,7 +994,12 @@ func TestCheck(t *testing.T) {
 	if failed := stressRounds(jb, rng, nStress); failed > nStress/10 {
 		e.Inconclusive(fmt.Sprintf("%d of %d ungated rounds did not complete", failed, 2*nStress))
 	}
-	fmt.Printf("ungated Stop-vs-wake rounds: %d\n", jb.Len()-nGated)
+	nStopRounds := jb.Len() - nGated
+	nConc := ev.Pick(100, 1500)
+	if failed := schedRounds(jb, rng, nConc); failed > nConc/10 {
+		e.Inconclusive(fmt.Sprintf("%d of %d concurrent-Schedule rounds did not complete", failed, nConc))
+	}
+	fmt.Printf("ungated rounds: %d Stop-vs-wake, %d concurrent Schedule/AddFunc\n", nStopRounds, jb.Len()-nGated-nStopRounds)
 	rej, res := tv.Validate(tlc.Opts{Dir: "CronSched", Module: "TraceCronSched", Config: "TraceCronSched.cfg", Workers: 16, Timeout: ev.Pick(6*time.Minute, 40*time.Minute), HeapMB: 12000}, jb)
 	fmt.Printf("TLC contract validation: ok=%v traces=%d rejected=%d distinct=%d wall=%s %s\n", res.OK, jb.Len(), len(rej), res.Distinct, res.Wall.Round(time.Millisecond), res.What)
 	if !res.OK {
@@ -827,7 +1025,11 @@ func TestCheck(t *testing.T) {
 	}
 	for _, r := range rej {
 		if r.Trace >= nGated {
-			e.Violation(keyOf(r.Why, program{Loc: 19800})+":ungated", r.Why, tv.M{"ungated_round": jb.TraceStrings(r.Trace), "at": r.At})
+			kind := ":ungated"
+			if r.Trace >= nGated+nStopRounds {
+				kind = ":concurrent-schedule"
+			}
+			e.Violation(keyOf(r.Why, program{Loc: 19800})+kind, r.Why, tv.M{"ungated_round": jb.TraceStrings(r.Trace), "at": r.At})
 			continue
 		}
 		i := idx[r.Trace]
@@ -869,6 +1071,9 @@ func keyOf(why string, p program) string {
 	if p.Loc != 0 {
 		class = "location-offset"
 	}
+	if p.Chain != "" && p.Chain != "none" && (strings.Contains(why, "held back") || strings.Contains(why, "skipped")) {
+		class += ":chain-" + p.Chain
+	}
 	return k + ":" + class
 }
 
@@ -902,7 +1107,7 @@ func replayProgram() *program {
 func selfTest(e *ev.Evidence) {
 	b := &tv.Batch{}
 	mk := func(variant string) {
-		b.Start(tv.M{"loc": 19800})
+		b.Start(tv.M{"loc": 19800, "chain": "none"})
 		b.Ev("sched_call", tv.M{"id": 1, "p": 2, "ph": 0})
 		b.Ev("nx", tv.M{"off": 19800})
 		b.Ev("sched_ret", tv.M{"id": 1})
